@@ -22,7 +22,11 @@ EXPLANATION = (
     "routes with the same comparator (<= threshold -> left child) and score is the objective of the predicted labels. "
     "Not decided: contiguity of the cluster labels, depth arithmetic beyond the guards.")
 ADOPT = [("C08", ["C08-f"], "the tree reproduces its own partition only if every recorded split is applied to the assignment matrices as recorded"),
-         ("C18", ["C18-d"], "predict reproduces the partition built by fit only if both compare the same floating-point values with the thresholds")]
+         ("C18", ["C18-d"], "predict reproduces the partition built by fit only if both compare the same floating-point values with the thresholds"),
+         ("C11", ["C11-b"], "Kauri.score is the kernel-KMeans objective of the predicted labels only if the kernel it is computed with is the named kernel of the data it "
+                            "was given (or the user's matrix)", "Kauri", "a missing precomputed kernel"),
+         ("C12", ["C12-c"], "a kernel (or labels) kept from an earlier call and reused on the evidence of object identity makes score describe other data than the ones "
+                            "routed through the tree", "kauri.py")]
 ASSUMPTIONS = ["np.argsort sorts ascending", "validated hyper-parameter domains (max_depth >= 1, min_samples_leaf >= 1)"]
 
 
